@@ -72,12 +72,24 @@ package main
 //           with a bare return, var x = e, a package variable with an initialiser that nothing in the package
 //           assigns -> its initialiser (with `consts`), `varField` (the function literal initialising a field
 //           of a package variable).
+//   third batch (encoding/mvt, simplify, maptile.At, tilecover):
+//           `applyField` (a function returning a struct of closures, translated as "field F of the result, applied":
+//           the statements before the return, then the closure's body; p := F(…) / p.Field stand for the partial
+//           applications), `viewRecv` (a method with a pointer receiver, through a view of what it touches: a scalar
+//           field is a parameter, a slice of pointers is the list of the values of one field of the — distinct —
+//           elements, the loop replaces the i-th value; any other use of the receiver leaves it unresolved), `u32`
+//           (a - b on uint32 wraps: (a + 2^32 - b) % 2^32; uint32(x) << n = shl32; uint64(x) << n = (x <<< n) % 2^64;
+//           uint32(f) of a float = the parameter floorU32; bits.TrailingZeros32 = the parameter tz32), maptile.Tile
+//           values (literal, fields, field updates), `setTotal` (xs[e] = v -> xs.set e v, xs[:n] -> xs.take n:
+//           bounds checks not translated), a simplifier interface value -> a pure total function, an opaque geometry
+//           type G with project.Geometry as a parameter, a write-only maptile.Set -> the list of inserted keys.
 
 import (
 	"encoding/json"
 	"flag"
 	"fmt"
 	"go/ast"
+	"go/parser"
 	"go/token"
 	"os"
 	"path/filepath"
@@ -101,6 +113,12 @@ const (
 	fkUFloat // untyped float constant
 	fkDistFn // orb.DistanceFunc
 	fkZ      // orb.Orientation (an int8 with negative values): Lean Int
+	fkTiles  // maptile.Set (a Go map) that is only written (set[k] = true) and returned: the list of the keys in insertion order
+	fkSimp   // simplify.simplifier (an interface with one method): List (Pt α) → Bool → List (Pt α), a pure total function
+	fkUnit   // a discarded result
+	fkG      // an orb.Geometry value, opaque: the type variable G (zero value = the nil interface, the parameter `gnil`)
+	fkGs     // a slice of them: List G
+	fkTile   // maptile.Tile: Orb.Tile.Tile
 	fkFs     // []float64: List α
 	fkProjFn // orb.Projection: Pt α → Pt α (a pure function: a closure with state is outside the translation)
 	fkPtss   // []Ring, Polygon, MultiLineString: List (List (Pt α))
@@ -141,6 +159,10 @@ type ffn struct {
 	absParam        bool              // math.Abs -> the explicit parameter `abs` (the models of package geo) instead of `fabs`
 	natCast         string            // float64(n) -> this explicit parameter (Nat → α) instead of Nat.cast
 	varField        bool              // name = "V.F": the function literal that initialises field F of the package variable V (nothing in the package assigns V)
+	applyField      string            // the function returns a struct of closures: translate "field F of the result, applied", i.e. the body of the function literal given to F with its parameters added to the function's (a returned call g(…) becomes the same for g)
+	u32             bool              // the ints of the function are uint32: a - b is (a + 2^32 - b) % 2^32 (a + b does not wrap in the translation, as for int)
+	viewRecv        string            // "Extent,Features.Geometry": a method with a pointer receiver r is translated through a VIEW of what it touches: r.Extent is a parameter, the slice of pointers r.Features is the list of the values of their field Geometry (distinct pointers), `for _, f := range r.Features { … f.Geometry … }` reads / replaces the i-th value; the result is that list after the method
+	setTotal        bool              // xs[e] = v at any index is xs.set e v and xs[:n] is xs.take n: Go's bounds checks (panics) are not part of the translation, as for xs[i] read through getD
 	typeCase        string            // translate the body of this case of the function's top-level `switch g := g.(type)`: the switch
 	// variable becomes a parameter of the case's type, in place of the (dropped) interface parameter
 	prefixUntil string // translate only the leading statements before the first one that mentions this identifier …
@@ -261,6 +283,13 @@ var floatPkgs = []fpkgSpec{
 	}},
 	{file: "SimplifyGo", rel: "simplify", imports: []string{"BoundGo"}, fns: []ffn{
 		{name: "doubleTriangleArea", lean: "doubleTriangleArea"},
+		// helpers.go: the loops around the simplifier (an interface value: a pure function parameter)
+		{name: "runSimplify", lean: "runSimplify"},
+		{name: "lineString", lean: "lineString"},
+		{name: "multiLineString", lean: "multiLineString"},
+		{name: "ring", lean: "ring"},
+		{name: "polygon", lean: "polygon", setTotal: true},
+		{name: "multiPolygon", lean: "multiPolygon", setTotal: true},
 	}},
 	{file: "TileGeoGo", rel: "maptile", imports: []string{"BoundGo"}, leanImps: []string{"Orb.Tile"}, opens: []string{"Orb.Tile (shl32)"},
 		vars: "variable {α : Type} [Add α] [Sub α] [Mul α] [Div α] [Neg α] [LT α] [DecidableLT α]\n" +
@@ -270,6 +299,9 @@ var floatPkgs = []fpkgSpec{
 			// the models (Orb.TileGeo) keep libm's functions, math.Pi, the folded constant 2*math.Pi and the
 			// literal 85.0511 as symbols, write 0.5 as 1/2, and convert through `ofNat`
 			{name: "Fraction", lean: "fraction", libm: true, natCast: "ofNat", consts: map[string]fconst{
+				"0.5": {"(1 / 2)", nil, ""}, "85.0511": {"latMax", []string{"latMax"}, ""}, "math.Pi": {"pi", []string{"pi"}, ""},
+				"-2*math.Pi": {"(-twoPi)", []string{"twoPi"}, ""}}},
+			{name: "At", lean: "at_", libm: true, natCast: "ofNat", u32: true, consts: map[string]fconst{
 				"0.5": {"(1 / 2)", nil, ""}, "85.0511": {"latMax", []string{"latMax"}, ""}, "math.Pi": {"pi", []string{"pi"}, ""},
 				"-2*math.Pi": {"(-twoPi)", []string{"twoPi"}, ""}}},
 		}},
@@ -330,6 +362,29 @@ var floatPkgs = []fpkgSpec{
 			{name: "ToPlanar", lean: "toPlanar", libm: true, natCast: "ofNat", consts: mercConsts},
 			{name: "ToGeo", lean: "toGeo", libm: true, natCast: "ofNat", consts: mercConsts},
 		}},
+	{file: "MvtGo", rel: "encoding/mvt", imports: []string{"BoundGo", "MercatorGo"}, leanImps: []string{"Orb.Tile"},
+		vars: "variable {α G : Type} [Add α] [Sub α] [Mul α] [Div α] [Neg α] [LT α] [DecidableLT α]\n" +
+			"  [OfNat α 0] [OfNat α 1] [OfNat α 2] [OfNat α 90] [OfNat α 180] [OfNat α 360]",
+		numerals: map[string]bool{"0": true, "1": true, "2": true, "90": true, "180": true, "360": true},
+		fns: []ffn{
+			// projection.go: the two closures of the struct newProjection returns, each as "the field, applied"
+			{name: "isPowerOfTwo", lean: "isPowerOfTwo", u32: true},
+			{name: "nonPowerOfTwoProjection", lean: "nonPow2ToTile", applyField: "ToTile", u32: true, libm: true, natCast: "ofNat", consts: mercConsts},
+			{name: "nonPowerOfTwoProjection", lean: "nonPow2ToWGS84", applyField: "ToWGS84", u32: true, libm: true, natCast: "ofNat", consts: mercConsts},
+			{name: "newProjection", lean: "newProjToTile", applyField: "ToTile", u32: true, libm: true, natCast: "ofNat", consts: mercConsts},
+			{name: "newProjection", lean: "newProjToWGS84", applyField: "ToWGS84", u32: true, libm: true, natCast: "ofNat", consts: mercConsts},
+			// layer.go: the methods that re-project every feature, through a view of *Layer
+			{recv: "Layer", name: "ProjectToTile", lean: "layerProjectToTile", viewRecv: "Extent,Features.Geometry", u32: true},
+			{recv: "Layer", name: "ProjectToWGS84", lean: "layerProjectToWGS84", viewRecv: "Extent,Features.Geometry", u32: true},
+		}},
+	{file: "TilecoverGo", rel: "maptile/tilecover", imports: []string{"BoundGo", "TileGeoGo"}, leanImps: []string{"Orb.Tile"},
+		vars: "variable {α : Type} [Add α] [Sub α] [Mul α] [Div α] [Neg α] [LT α] [DecidableLT α]\n" +
+			"  [OfNat α 0] [OfNat α 1] [OfNat α 2] [OfNat α 90] [OfNat α 180] [OfNat α 360]",
+		numerals: map[string]bool{"0": true, "1": true, "2": true, "90": true, "180": true, "360": true},
+		fns: []ffn{
+			{name: "Point", lean: "coverPoint"},
+			{name: "MultiPoint", lean: "coverMultiPoint"},
+		}},
 	{file: "SmartclipGo", rel: "clip/smartclip", imports: []string{"BoundGo"}, fns: []ffn{
 		{name: "bitCodeOpen", lean: "bitCodeOpen"},
 		{name: "pointSide", lean: "pointSide"},
@@ -351,6 +406,7 @@ type ftrans struct {
 	subst        map[string]fsub
 	retTys       []fty
 	numerals     map[string]bool
+	closures     map[string]map[string]string // p := F(…) for a function translated field by field: field -> the partial application
 	namedResults []string
 	inPkgVar     bool
 	inIndex      bool // inside xs[…]: a negative index is a Go panic, which the translation does not cover anyway
@@ -497,7 +553,9 @@ func (t *ftrans) intTy() string {
 	return "Nat"
 }
 
-func isList(ty fty) bool { return ty.k == fkPts || ty.k == fkPtss || ty.k == fkPtsss || ty.k == fkFs }
+func isList(ty fty) bool {
+	return ty.k == fkPts || ty.k == fkPtss || ty.k == fkPtsss || ty.k == fkFs || ty.k == fkGs
+}
 
 // the named slice types of package orb
 var listNames = map[string]fkind{"LineString": fkPts, "Ring": fkPts, "MultiPoint": fkPts,
@@ -521,6 +579,8 @@ func elemTy(ty fty) fty {
 	switch ty.k {
 	case fkFs:
 		return tF
+	case fkGs:
+		return fty{k: fkG}
 	case fkPts:
 		return tP
 	case fkPtss:
@@ -542,6 +602,8 @@ func zeroOf(ty fty) string {
 	switch ty.k {
 	case fkFloat:
 		return "0"
+	case fkG:
+		return "gnil"
 	case fkPt:
 		return "⟨0, 0⟩"
 	case fkPts, fkPtss, fkPtsss, fkFs:
@@ -566,6 +628,18 @@ func (t *ftrans) leanTy(ty fty) string {
 		return "Bound α"
 	case fkPts:
 		return "List (Pt α)"
+	case fkTile:
+		return "Orb.Tile.Tile"
+	case fkTiles:
+		return "List Orb.Tile.Tile"
+	case fkSimp:
+		return "List (Pt α) → Bool → List (Pt α)"
+	case fkUnit:
+		return "Unit"
+	case fkG:
+		return "G"
+	case fkGs:
+		return "List G"
 	case fkFs:
 		return "List α"
 	case fkPtss:
@@ -593,6 +667,8 @@ func fgoTy(e ast.Expr) fty {
 		}
 		el := fgoTy(at.Elt)
 		switch el.k {
+		case fkG:
+			return fty{k: fkGs, name: "[]G"}
 		case fkFloat:
 			return fty{k: fkFs, name: "[]float64"}
 		case fkPt:
@@ -631,6 +707,14 @@ func fgoTy(e ast.Expr) fty {
 		return fty{k: fkDistFn}
 	case "Projection":
 		return fty{k: fkProjFn}
+	case "Tile":
+		return fty{k: fkTile}
+	case "orbGeometryG":
+		return fty{k: fkG}
+	case "simplifier":
+		return fty{k: fkSimp}
+	case "Set":
+		return fty{k: fkTiles}
 	}
 	return tBad
 }
@@ -672,7 +756,7 @@ var leanReserved = map[string]bool{"from": true, "to": true, "at": true, "fun": 
 	"α": true, "sqrt": true, "next": true, "min": true, "max": true, "fabs": true, "ptEq": true, "foldPairs": true, "decide": true,
 	"some": true, "none": true, "p_": true, "q_": true, "x_": true, "ret_": true, "e_": true, "m_": true,
 	"eb": true, "inf": true, "foldlRet": true, "foldPairsRet": true,
-	"abs": true, "cos": true, "asin": true, "atan2": true, "fmax": true, "fmin": true, "R": true, "mPerDeg": true, "atan": true, "exp": true, "tan": true, "d180pi": true, "c9999": true, "piHalf": true, "rPi": true, "rPi180": true, "sin": true, "log": true, "pi": true, "twoPi": true, "latMax": true, "ofNat": true, "shl32": true}
+	"abs": true, "cos": true, "asin": true, "atan2": true, "fmax": true, "fmin": true, "R": true, "mPerDeg": true, "atan": true, "exp": true, "tan": true, "floor": true, "floorU32": true, "tz32": true, "gnil": true, "projectGeometry": true, "G": true, "i_": true, "extent_": true, "d180pi": true, "c9999": true, "piHalf": true, "rPi": true, "rPi180": true, "sin": true, "log": true, "pi": true, "twoPi": true, "latMax": true, "ofNat": true, "shl32": true}
 
 func lid(name string) string {
 	if leanReserved[name] || strings.HasPrefix(name, "k_") || strings.HasPrefix(name, "v_") {
@@ -907,6 +991,13 @@ func (t *ftrans) expr(e ast.Expr) (string, fty) {
 		return t.fail("unknown identifier %s", x.Name), tBad
 	case *ast.SelectorExpr:
 		if id, ok := x.X.(*ast.Ident); ok {
+			if m := t.closures[id.Name]; m != nil {
+				if s, ok := m[x.Sel.Name]; ok {
+					t.notes["pure-projection"] = true
+					return s, fty{k: fkProjFn}
+				}
+				return t.fail("selector %s", src(t.pk, e)), tBad
+			}
 			if _, isVar := t.vars[id.Name]; !isVar {
 				if rel, ok := relOfPkgIdent(id.Name); ok {
 					if s, ty, ok := t.constant(rel, x.Sel.Name); ok {
@@ -925,6 +1016,13 @@ func (t *ftrans) expr(e ast.Expr) (string, fty) {
 				return par(base) + ".hi", tP
 			}
 		}
+		_ = base
+		if ty.k == fkTile {
+			switch x.Sel.Name {
+			case "X", "Y", "Z":
+				return par(base) + "." + strings.ToLower(x.Sel.Name), tI
+			}
+		}
 		return t.fail("selector %s", src(t.pk, e)), tBad
 	case *ast.IndexExpr:
 		base, ty := t.expr(x.X)
@@ -938,7 +1036,7 @@ func (t *ftrans) expr(e ast.Expr) (string, fty) {
 					return par(base) + ".y", tF
 				}
 			}
-		case fkPts, fkPtss, fkPtsss, fkFs:
+		case fkPts, fkPtss, fkPtsss, fkFs, fkGs:
 			wasIn := t.inIndex
 			t.inIndex = true
 			i, ity := t.expr(x.Index)
@@ -958,11 +1056,59 @@ func (t *ftrans) expr(e ast.Expr) (string, fty) {
 				} else {
 					t.notes["index-total"] = true
 				}
+				if el.k == fkG {
+					t.extras["gnil"] = true
+				}
 				return fmt.Sprintf("(%s.getD %s %s)", par(base), par(i), zeroOf(el)), el
 			}
 		}
 		return t.fail("index %s", src(t.pk, e)), tBad
+	case *ast.SliceExpr:
+		if t.spec.setTotal && x.Low == nil && x.High != nil && !x.Slice3 && t.intTy() == "Nat" && !hasSub(x.High) {
+			base, ty := t.expr(x.X)
+			n, nty := t.expr(x.High)
+			if isList(ty) && (nty.k == fkInt || nty.k == fkUInt) {
+				t.notes["set-total"] = true
+				return par(base) + ".take " + par(n), fty{k: ty.k, name: ty.name}
+			}
+		}
+		return t.fail("expression %s", src(t.pk, e)), tBad
 	case *ast.CompositeLit:
+		if fgoTy(x.Type).k == fkTiles {
+			var ks []string
+			for _, el := range x.Elts {
+				kv, ok := el.(*ast.KeyValueExpr)
+				if !ok || src(t.pk, kv.Value) != "true" {
+					return t.fail("composite literal %s", src(t.pk, e)), tBad
+				}
+				k, kty := t.expr(kv.Key)
+				if kty.k != fkTile {
+					return t.fail("composite literal %s", src(t.pk, e)), tBad
+				}
+				ks = append(ks, k)
+			}
+			t.notes["set-as-list"] = true
+			return "[" + strings.Join(ks, ", ") + "]", fty{k: fkTiles}
+		}
+		if fgoTy(x.Type).k == fkTile {
+			// maptile.Tile{X: …, Y: …, Z: …}
+			f := map[string]string{}
+			for _, el := range x.Elts {
+				kv, ok := el.(*ast.KeyValueExpr)
+				if !ok {
+					return t.fail("positional Tile literal"), tBad
+				}
+				v, vt := t.expr(kv.Value)
+				if vt.k != fkInt && vt.k != fkUInt {
+					return t.fail("Tile literal field"), tBad
+				}
+				f[src(t.pk, kv.Key)] = v
+			}
+			if len(f) == 3 && f["X"] != "" && f["Y"] != "" && f["Z"] != "" && len(x.Elts) == 3 {
+				return fmt.Sprintf("(⟨%s, %s, %s⟩ : Orb.Tile.Tile)", f["X"], f["Y"], f["Z"]), fty{k: fkTile}
+			}
+			return t.fail("composite literal %s", src(t.pk, e)), tBad
+		}
 		switch fgoTy(x.Type).k {
 		case fkPt:
 			if len(x.Elts) == 0 {
@@ -1033,12 +1179,34 @@ func (t *ftrans) expr(e ast.Expr) (string, fty) {
 		case token.LAND, token.LOR, token.EQL, token.NEQ, token.LSS, token.GTR, token.LEQ, token.GEQ:
 			return t.boolVal(e), tB
 		}
+		if x.Op == token.SHL && t.intTy() == "Nat" {
+			// uint64(a) << b: the 64-bit shift
+			if c, ok := x.X.(*ast.CallExpr); ok && src(t.pk, c.Fun) == "uint32" && len(c.Args) == 1 && t.spec.u32 {
+				// uint32(a) << b: the 32-bit shift of Orb.Tile
+				a, aty := t.expr(c.Args[0])
+				b, bty := t.expr(x.Y)
+				if (aty.k == fkInt || aty.k == fkUInt) && bty.k == fkInt {
+					return "Orb.Tile.shl32 " + par(a) + " " + par(b), tI
+				}
+			}
+			if c, ok := x.X.(*ast.CallExpr); ok && src(t.pk, c.Fun) == "uint64" && len(c.Args) == 1 {
+				a, aty := t.expr(c.Args[0])
+				b, bty := t.expr(x.Y)
+				if aty.k == fkInt && bty.k == fkInt {
+					return "((" + par(a) + " <<< " + par(b) + ") % 2 ^ 64)", tI
+				}
+			}
+			return t.fail("shift %s", src(t.pk, e)), tBad
+		}
 		l, lt := t.expr(x.X)
 		r, rt := t.expr(x.Y)
 		ty := fUnify(lt, rt)
 		isC := func(ty fty) bool { return ty.k == fkUInt || ty.k == fkUFloat || ty.name == "const" }
 		if ty.k == fkUInt || ty.k == fkUFloat || (isC(lt) && isC(rt)) {
 			return t.fail("constant expression %s (Go evaluates it exactly at compile time)", src(t.pk, e)), tBad
+		}
+		if ty.k == fkInt && x.Op == token.SUB && t.intTy() == "Nat" && !t.inIndex && t.spec.u32 {
+			return "(" + par(l) + " + 2 ^ 32 - " + par(r) + ") % 2 ^ 32", tI
 		}
 		if ty.k == fkInt && x.Op == token.SUB && t.intTy() == "Nat" && !t.inIndex {
 			return t.fail("integer subtraction %s outside an index (Go's int can go negative)", src(t.pk, e)), tBad
@@ -1145,6 +1313,220 @@ func pkgVarInit(pk *pkgFiles, name string) ast.Expr {
 		}
 	}
 	return init
+}
+
+// applyFieldDecl: for a function that returns a struct of closures (`return &T{…, F: func(p …) … {…}, …}` or
+// `return g(…)` for another such function), the declaration of "field F of the result, applied to p": the
+// closure's parameters are added to the function's, every such return becomes the closure's body (resp. the
+// call g·F(…, p)).  The closure must not write anything declared outside it; the function returns right after
+// building the closures, so what they capture never changes.
+func applyFieldDecl(pk *pkgFiles, fd *ast.FuncDecl, field string) (*ast.FuncDecl, string) {
+	var lit *ast.FuncLit
+	why := ""
+	outer := map[string]bool{}
+	for _, fl := range []*ast.FieldList{fd.Recv, fd.Type.Params} {
+		if fl != nil {
+			for _, p := range fl.List {
+				for _, n := range p.Names {
+					outer[n.Name] = true
+				}
+			}
+		}
+	}
+	ast.Inspect(fd.Body, func(n ast.Node) bool {
+		switch x := n.(type) {
+		case *ast.FuncLit:
+			return false
+		case *ast.AssignStmt:
+			if x.Tok == token.DEFINE {
+				for _, l := range x.Lhs {
+					if id, ok := l.(*ast.Ident); ok {
+						outer[id.Name] = true
+					}
+				}
+			}
+		case *ast.ValueSpec:
+			for _, id := range x.Names {
+				outer[id.Name] = true
+			}
+		}
+		return true
+	})
+	sameSig := func(a, b *ast.FuncLit) bool { return src(pk, a.Type) == src(pk, b.Type) }
+	var conv func(list []ast.Stmt) []ast.Stmt
+	conv = func(list []ast.Stmt) []ast.Stmt {
+		var out []ast.Stmt
+		for _, s := range list {
+			switch st := s.(type) {
+			case *ast.ReturnStmt:
+				if len(st.Results) != 1 {
+					why = "return shape"
+					return nil
+				}
+				r := st.Results[0]
+				if u, ok := r.(*ast.UnaryExpr); ok && u.Op == token.AND {
+					r = u.X
+				}
+				switch rv := r.(type) {
+				case *ast.CompositeLit:
+					var f *ast.FuncLit
+					for _, el := range rv.Elts {
+						if kv, ok := el.(*ast.KeyValueExpr); ok {
+							if k, ok := kv.Key.(*ast.Ident); ok && k.Name == field {
+								f, _ = kv.Value.(*ast.FuncLit)
+							}
+						}
+					}
+					if f == nil || (lit != nil && !sameSig(lit, f)) {
+						why = "field " + field + " is not given a function literal (of one signature)"
+						return nil
+					}
+					for v := range outer {
+						if writes(f.Body, v) {
+							why = "the closure writes " + v
+							return nil
+						}
+					}
+					lit = f
+					out = append(out, &ast.BlockStmt{List: f.Body.List})
+				case *ast.CallExpr:
+					id, ok := rv.Fun.(*ast.Ident)
+					if !ok {
+						why = "return shape"
+						return nil
+					}
+					out = append(out, &ast.ReturnStmt{Results: []ast.Expr{&ast.CallExpr{Fun: ast.NewIdent(id.Name + "·" + field), Args: rv.Args, Rparen: token.NoPos}}})
+				default:
+					why = "return shape"
+					return nil
+				}
+			case *ast.IfStmt:
+				c := *st
+				c.Body = &ast.BlockStmt{List: conv(st.Body.List)}
+				if st.Else != nil {
+					switch e := st.Else.(type) {
+					case *ast.BlockStmt:
+						c.Else = &ast.BlockStmt{List: conv(e.List)}
+					default:
+						why = "else-if around the returned closures"
+					}
+				}
+				out = append(out, &c)
+			case *ast.BlockStmt:
+				out = append(out, &ast.BlockStmt{List: conv(st.List)})
+			default:
+				out = append(out, s)
+			}
+			if why != "" {
+				return nil
+			}
+		}
+		return out
+	}
+	body := conv(fd.Body.List)
+	if why != "" {
+		return nil, why
+	}
+	if lit == nil {
+		// only calls of other such functions: take the signature from … nowhere: refuse
+		return nil, "no closure for field " + field
+	}
+	for _, p := range lit.Type.Params.List {
+		for _, n := range p.Names {
+			if outer[n.Name] {
+				return nil, "closure parameter " + n.Name + " has the name of an outer variable"
+			}
+		}
+	}
+	// the calls g·F(…) get the closure's parameters as further arguments
+	var extra []ast.Expr
+	for _, p := range lit.Type.Params.List {
+		for _, n := range p.Names {
+			extra = append(extra, ast.NewIdent(n.Name))
+		}
+	}
+	for _, s := range body {
+		ast.Inspect(s, func(n ast.Node) bool {
+			if c, ok := n.(*ast.CallExpr); ok {
+				if id, ok := c.Fun.(*ast.Ident); ok && strings.HasSuffix(id.Name, "·"+field) {
+					c.Args = append(append([]ast.Expr{}, c.Args...), extra...)
+				}
+			}
+			return true
+		})
+	}
+	params := &ast.FieldList{List: append(append([]*ast.Field{}, fd.Type.Params.List...), lit.Type.Params.List...)}
+	return &ast.FuncDecl{Name: fd.Name, Recv: fd.Recv, Type: &ast.FuncType{Params: params, Results: lit.Type.Results}, Body: &ast.BlockStmt{List: body}}, ""
+}
+
+// viewRecvDecl: the method seen through the view "S,E.F" of its pointer receiver r (see ffn.viewRecv): r.S becomes
+// the parameter s_ (uint32), r.E the parameter e_ ([]G), `for _, f := range r.E` becomes `for i_ := range e_` with
+// f.F = e_[i_]; the method gets the result e_.  Any other use of r or f survives the rewrite as an unknown
+// identifier and leaves the function unresolved.
+func viewRecvDecl(pk *pkgFiles, fd *ast.FuncDecl, view string) (*ast.FuncDecl, string) {
+	m := regexp.MustCompile(`^(\w+),(\w+)\.(\w+)$`).FindStringSubmatch(view)
+	if m == nil || fd.Recv == nil || len(fd.Recv.List) != 1 || len(fd.Recv.List[0].Names) != 1 || fd.Type.Results != nil {
+		return nil, "view shape"
+	}
+	r := fd.Recv.List[0].Names[0].Name
+	scalar, elems, field := m[1], m[2], m[3]
+	hasRet := false
+	ast.Inspect(fd.Body, func(n ast.Node) bool {
+		switch n.(type) {
+		case *ast.ReturnStmt, *ast.FuncLit, *ast.GoStmt, *ast.DeferStmt:
+			hasRet = true
+		}
+		return true
+	})
+	if hasRet {
+		return nil, "return / closure / go / defer in a method translated through a view"
+	}
+	sv, ev := strings.ToLower(scalar)+"_", strings.ToLower(elems)+"_"
+	if mentions(fd, sv) || mentions(fd, ev) || mentions(fd, "i_") {
+		return nil, "name clash with the view"
+	}
+	body := src(pk, fd.Body)
+	q := regexp.QuoteMeta
+	body = regexp.MustCompile(`\b`+q(r)+`\.`+q(scalar)+`\b`).ReplaceAllString(body, sv)
+	// the loops over the elements
+	loop := regexp.MustCompile(`for _, (\w+) := range ` + q(r) + `\.` + q(elems) + ` \{`)
+	fs := map[string]bool{}
+	for _, mm := range loop.FindAllStringSubmatch(body, -1) {
+		fs[mm[1]] = true
+	}
+	if len(fs) != 1 {
+		return nil, "the view needs exactly one loop variable over " + r + "." + elems
+	}
+	var f string
+	for k := range fs {
+		f = k
+	}
+	body = loop.ReplaceAllString(body, "for i_ := range "+ev+" {")
+	body = regexp.MustCompile(`\b`+q(f)+`\.`+q(field)+`\b`).ReplaceAllString(body, ev+"[i_]")
+	body = strings.TrimSuffix(strings.TrimSpace(body), "}") + "\n\treturn " + ev + "\n}"
+	var ps []string
+	for _, p := range fd.Type.Params.List {
+		var ns []string
+		for _, n := range p.Names {
+			ns = append(ns, n.Name)
+		}
+		ps = append(ps, strings.Join(ns, ", ")+" "+src(pk, p.Type))
+	}
+	ps = append(ps, sv+" uint32", ev+" []orbGeometryG")
+	text := "package view\n\nfunc " + fd.Name.Name + "(" + strings.Join(ps, ", ") + ") []orbGeometryG " + body + "\n"
+	file, err := parser.ParseFile(pk.fset, "view:"+fd.Name.Name+".go", text, 0)
+	if err != nil {
+		return nil, "view: " + err.Error()
+	}
+	for _, d := range file.Decls {
+		if nfd, ok := d.(*ast.FuncDecl); ok {
+			if mentions(nfd.Body, r) || mentions(nfd.Body, f) {
+				return nil, "the receiver (or the loop variable) is used outside the view: " + r + ", " + f
+			}
+			return nfd, ""
+		}
+	}
+	return nil, "view"
 }
 
 // findVarFieldFunc: for name "V.F", the function literal given to field F in the struct literal that
@@ -1315,7 +1697,47 @@ func (t *ftrans) call(x *ast.CallExpr) (string, fty) {
 				}
 			}
 		}
+	case "project.Geometry":
+		// project.Geometry(g, proj) on an opaque geometry value: the explicit parameter `projectGeometry`
+		if len(x.Args) == 2 && t.spec.viewRecv != "" {
+			g, gty := t.expr(x.Args[0])
+			f, fty_ := t.expr(x.Args[1])
+			if gty.k == fkG && fty_.k == fkProjFn {
+				t.extras["projectGeometry"] = true
+				return "projectGeometry " + par(g) + " " + par(f), fty{k: fkG}
+			}
+		}
+	case "bits.TrailingZeros32":
+		if len(x.Args) == 1 && t.spec.u32 {
+			a, ty := t.expr(x.Args[0])
+			if ty.k == fkInt {
+				t.extras["tz32"] = true
+				return "tz32 " + par(a), tI
+			}
+		}
+	case "math.Floor":
+		if t.spec.libm {
+			if as, ok := floatArgs(1); ok {
+				t.extras["floor"] = true
+				return "floor " + as[0], tF
+			}
+		}
 	case "uint32":
+		// uint32(n) of a value that is a uint32 / Zoom already
+		if len(x.Args) == 1 && t.spec.u32 {
+			if _, isBin := x.Args[0].(*ast.BinaryExpr); !isBin {
+				a, ty := t.expr(x.Args[0])
+				if ty.k == fkInt || ty.k == fkUInt {
+					return a, tI
+				}
+				if ty.k == fkFloat && t.spec.natCast != "" {
+					// uint32(f) of a float: the explicit parameter floorU32 (as in the models)
+					t.extras["floorU32"] = true
+					return "floorU32 " + par(a), tI
+				}
+				return t.fail("conversion %s", src(t.pk, x)), tBad
+			}
+		}
 		// uint32(a << b): the 32-bit shift of Orb.Tile
 		if len(x.Args) == 1 && t.intTy() == "Nat" && t.spec.natCast != "" {
 			if b, ok := x.Args[0].(*ast.BinaryExpr); ok && b.Op == token.SHL {
@@ -1378,6 +1800,18 @@ func (t *ftrans) call(x *ast.CallExpr) (string, fty) {
 			}
 		}
 	case "make":
+		if len(x.Args) >= 1 && len(x.Args) <= 2 && fgoTy(x.Args[0]).k == fkTiles {
+			if _, isArr := x.Args[0].(*ast.ArrayType); !isArr {
+				if len(x.Args) == 2 {
+					// (the capacity hint has no effect on the contents; it is evaluated, and must not panic)
+					if _, ty := t.expr(x.Args[1]); ty.k != fkInt && ty.k != fkUInt {
+						return t.fail("make %s", src(t.pk, x)), tBad
+					}
+				}
+				t.notes["set-as-list"] = true
+				return "[]", fty{k: fkTiles}
+			}
+		}
 		// make([]T, n): n zero values.  A size a - b is negative (a panic) when a < b: only "res" functions
 		if len(x.Args) == 2 && t.intTy() == "Nat" {
 			lt := fgoTy(x.Args[0])
@@ -1434,6 +1868,22 @@ func (t *ftrans) call(x *ast.CallExpr) (string, fty) {
 	}
 	if t.err != "" {
 		return "unsupported", tBad
+	}
+	// s.simplify(ls, area, false) for a simplifier s: (the simplified line, the index map that is not asked for)
+	if sel, ok := x.Fun.(*ast.SelectorExpr); ok && sel.Sel.Name == "simplify" {
+		if id, ok := sel.X.(*ast.Ident); ok {
+			if ty, ok := t.vars[id.Name]; ok && ty.k == fkSimp {
+				if len(x.Args) == 3 && src(t.pk, x.Args[2]) == "false" {
+					a, aty := t.expr(x.Args[0])
+					b, bty := t.exprOrBool(x.Args[1])
+					if aty.k == fkPts && bty.k == fkBool {
+						t.notes["pure-simplifier"] = true
+						return "(" + t.ln(id.Name) + " " + par(a) + " " + par(b) + ", ())", fty{k: fkTuple, el: []fty{{k: fkPts, name: "LineString"}, {k: fkUnit}}}
+					}
+				}
+				return t.fail("call %s", src(t.pk, x)), tBad
+			}
+		}
 	}
 	// a Projection variable
 	if id, ok := x.Fun.(*ast.Ident); ok {
@@ -1553,6 +2003,52 @@ func (t *ftrans) call(x *ast.CallExpr) (string, fty) {
 	rt := sg.ret
 	rt.nie = sg.nie
 	return strings.Join(parts, " "), rt
+}
+
+// closureCall: e is a call F(args) of a function of the package translated field by field (applyField):
+// for every translated field, the partial application `(F·field extras args)` (a Pt α → Pt α)
+func (t *ftrans) closureCall(e ast.Expr) map[string]string {
+	c, ok := e.(*ast.CallExpr)
+	if !ok {
+		return nil
+	}
+	id, ok := c.Fun.(*ast.Ident)
+	if !ok {
+		return nil
+	}
+	prefix := t.pk.rel + "||" + id.Name + "·"
+	var out map[string]string
+	var keys []string
+	for k := range fsigs {
+		if strings.HasPrefix(k, prefix) {
+			keys = append(keys, k)
+		}
+	}
+	sort.Strings(keys)
+	for _, k := range keys {
+		sg := fsigs[k]
+		if sg.fn.panicMode != "" || len(sg.params) != len(c.Args)+1 || sg.ret.k != fkPt || sg.params[len(c.Args)].k != fkPt {
+			return nil
+		}
+		parts := []string{sg.qual}
+		for _, ex := range sg.extras {
+			t.extras[ex] = true
+			parts = append(parts, ex)
+		}
+		for i, a := range c.Args {
+			v, ty := t.exprOrBool(a)
+			if ty.k != sg.params[i].k || len(t.pending) != 0 {
+				t.fail("argument %d of %s", i, id.Name)
+				return nil
+			}
+			parts = append(parts, par(v))
+		}
+		if out == nil {
+			out = map[string]string{}
+		}
+		out[strings.TrimPrefix(k, prefix)] = "(" + strings.Join(parts, " ") + ")"
+	}
+	return out
 }
 
 // abstractCall: f(args) for a function f of the package that is not translated; f becomes a parameter
@@ -2210,6 +2706,12 @@ func (t *ftrans) store(lhs ast.Expr, mk func(cur string, curTy fty) (string, boo
 		return name + " : Pt α", fmt.Sprintf("⟨%s, %s.y⟩", nv, name), true
 	case rty.k == fkPt && path == ".y":
 		return name + " : Pt α", fmt.Sprintf("⟨%s.x, %s⟩", name, nv), true
+	case rty.k == fkTile && path == ".x":
+		return name + " : Orb.Tile.Tile", fmt.Sprintf("⟨%s, %s.y, %s.z⟩", nv, name, name), true
+	case rty.k == fkTile && path == ".y":
+		return name + " : Orb.Tile.Tile", fmt.Sprintf("⟨%s.x, %s, %s.z⟩", name, nv, name), true
+	case rty.k == fkTile && path == ".z":
+		return name + " : Orb.Tile.Tile", fmt.Sprintf("⟨%s.x, %s.y, %s⟩", name, name, nv), true
 	case rty.k == fkBound && path == ".lo":
 		return name + " : Bound α", fmt.Sprintf("⟨%s, %s.hi⟩", nv, name), true
 	case rty.k == fkBound && path == ".hi":
@@ -2278,6 +2780,35 @@ func (t *ftrans) assign(st *ast.AssignStmt, rest func() string) string {
 	}
 	lhs, rhs := st.Lhs[0], st.Rhs[0]
 	if st.Tok == token.DEFINE {
+		if id, ok := lhs.(*ast.Ident); ok {
+			if m := t.closureCall(rhs); m != nil {
+				// p := F(…), F returning a struct of closures: p stands for the partial applications of F's fields
+				if _, exists := t.vars[id.Name]; exists || t.closures[id.Name] != nil || writes(t.body, id.Name+"\x00") || len(t.pending) != 0 {
+					return t.fail("definition %s", src(t.pk, st))
+				}
+				n := 0
+				ast.Inspect(t.body, func(x ast.Node) bool {
+					if as, ok := x.(*ast.AssignStmt); ok {
+						for _, l := range as.Lhs {
+							if i, ok := l.(*ast.Ident); ok && i.Name == id.Name {
+								n++
+							}
+						}
+					}
+					return true
+				})
+				if n != 1 {
+					return t.fail("%s is assigned more than once", id.Name)
+				}
+				if t.closures == nil {
+					t.closures = map[string]map[string]string{}
+				}
+				t.closures[id.Name] = m
+				return rest()
+			}
+		}
+	}
+	if st.Tok == token.DEFINE {
 		id, ok := lhs.(*ast.Ident)
 		if !ok || id.Name == "_" {
 			return t.fail("assignment %s", src(t.pk, st))
@@ -2300,9 +2831,20 @@ func (t *ftrans) assign(st *ast.AssignStmt, rest func() string) string {
 		return t.fail("assignment %s", src(t.pk, st))
 	}
 	if ix, isIx := lhs.(*ast.IndexExpr); isIx && st.Tok == token.ASSIGN {
+		if id, ok := ix.X.(*ast.Ident); ok && t.vars[id.Name].k == fkTiles {
+			// set[k] = true on a write-only maptile.Set: one more key
+			k, kty := t.expr(ix.Index)
+			if kty.k != fkTile || src(t.pk, rhs) != "true" || len(t.pending) != 0 {
+				return t.fail("assignment %s", src(t.pk, st))
+			}
+			t.notes["set-as-list"] = true
+			return letLine(t.ln(id.Name)+" : List Orb.Tile.Tile", par(t.ln(id.Name))+" ++ ["+k+"]", rest())
+		}
 		if id, ok := ix.X.(*ast.Ident); ok && isList(t.vars[id.Name]) {
 			// xs[i] = e under `for i := range xs` (i is in range): the list with its i-th element replaced
-			if !t.safeIdx[src(t.pk, lhs)] && t.spec.panicMode != "res" {
+			if !t.safeIdx[src(t.pk, lhs)] && t.spec.setTotal && t.spec.panicMode == "" {
+				t.notes["set-total"] = true
+			} else if !t.safeIdx[src(t.pk, lhs)] && t.spec.panicMode != "res" {
 				return t.fail("assignment %s (an element is assigned only where the index is known to be in range, or in a \"res\" function)", src(t.pk, st))
 			}
 			lty := t.vars[id.Name]
@@ -2321,7 +2863,7 @@ func (t *ftrans) assign(st *ast.AssignStmt, rest func() string) string {
 			if ity.k != fkInt && ity.k != fkUInt {
 				return t.fail("assignment %s", src(t.pk, st))
 			}
-			if !t.safeIdx[src(t.pk, lhs)] {
+			if !t.safeIdx[src(t.pk, lhs)] && !(t.spec.setTotal && t.spec.panicMode == "") {
 				if !t.indexGuard(ix, t.ln(id.Name), i) {
 					return "unsupported"
 				}
@@ -2553,7 +3095,7 @@ func onlyElemWrites(pk *pkgFiles, n ast.Node, xs, i string) bool {
 	good, other := 0, false
 	ast.Inspect(n, func(x ast.Node) bool {
 		if as, ok := x.(*ast.AssignStmt); ok && as.Tok == token.ASSIGN && len(as.Lhs) == 1 {
-			if ix, ok := as.Lhs[0].(*ast.IndexExpr); ok && src(pk, ix) == xs+"["+i+"]" {
+			if ix, ok := as.Lhs[0].(*ast.IndexExpr); ok && (src(pk, ix) == xs+"["+i+"]" || (i == "*" && src(pk, ix.X) == xs && !mentions(ix.Index, xs))) {
 				good++
 				// the rest of the statement must not write xs
 				if writes(as.Rhs[0], xs) {
@@ -3204,7 +3746,7 @@ func (t *ftrans) rangeStmt(st *ast.RangeStmt, rest func() string) string {
 	// the body neither assigns nor declares again the slice, the index, the element
 	elemWrites := false
 	for _, n := range []string{xs, key.Name, val} {
-		if n == xs && key.Name != "_" && onlyElemWrites(t.pk, st.Body, xs, key.Name) {
+		if n == xs && key.Name != "_" && (onlyElemWrites(t.pk, st.Body, xs, key.Name) || (t.spec.setTotal && onlyElemWrites(t.pk, st.Body, xs, "*"))) {
 			elemWrites = true
 			continue
 		}
@@ -3473,11 +4015,11 @@ var geoConsts = map[string]fconst{"math.Pi": {"pi", []string{"pi"}, ""}, "2*math
 	"-90": {"(-90)", nil, ""}, "-180": {"(-180)", nil, ""}, "90": {"90", nil, ""}, "180": {"180", nil, ""},
 	"111131.75": {"mPerDeg", []string{"mPerDeg"}, ""}}
 
-var extraOrder = []string{"sqrt", "next", "inf", "eb", "abs", "cos", "asin", "atan2", "fmax", "fmin", "R", "mPerDeg", "sin", "log", "atan", "exp", "tan",
-	"pi", "twoPi", "piHalf", "d180pi", "rPi", "rPi180", "c9999", "latMax", "ofNat"}
+var extraOrder = []string{"sqrt", "next", "inf", "eb", "abs", "cos", "asin", "atan2", "fmax", "fmin", "R", "mPerDeg", "sin", "log", "atan", "exp", "tan", "floor", "floorU32", "tz32",
+	"pi", "twoPi", "piHalf", "d180pi", "rPi", "rPi180", "c9999", "latMax", "ofNat", "gnil", "projectGeometry"}
 var extraTypes = map[string]string{"sqrt": "α → α", "next": "α → α", "inf": "α", "eb": "Bound α",
 	"abs": "α → α", "sin": "α → α", "cos": "α → α", "asin": "α → α", "atan2": "α → α → α", "fmax": "α → α → α", "fmin": "α → α → α",
-	"R": "α", "mPerDeg": "α", "atan": "α → α", "exp": "α → α", "tan": "α → α", "d180pi": "α", "c9999": "α", "piHalf": "α", "rPi": "α", "rPi180": "α", "log": "α → α", "pi": "α", "twoPi": "α", "latMax": "α", "ofNat": "Nat → α"}
+	"R": "α", "mPerDeg": "α", "atan": "α → α", "exp": "α → α", "tan": "α → α", "floor": "α → α", "floorU32": "α → Nat", "tz32": "Nat → Nat", "gnil": "G", "projectGeometry": "G → (Pt α → Pt α) → G", "d180pi": "α", "c9999": "α", "piHalf": "α", "rPi": "α", "rPi180": "α", "log": "α → α", "pi": "α", "twoPi": "α", "latMax": "α", "ofNat": "Nat → α"}
 
 var floatVariables = "variable {α : Type} [Add α] [Sub α] [Mul α] [Div α] [Neg α] [LT α] [LE α] [DecidableLT α] [DecidableLE α]\n" +
 	"  [BEq α] [Min α] [Max α] [OfNat α 0] [OfNat α 1] [OfNat α 2] [OfNat α 6] [NatCast α]"
@@ -3550,6 +4092,28 @@ func genFloatTies() []*leanFile {
 			if f.varField {
 				pk, fd = findVarFieldFunc(f.rel, f.name)
 			}
+			if f.viewRecv != "" && fd != nil && fd.Body != nil {
+				nfd, why := viewRecvDecl(pk, fd, f.viewRecv)
+				if nfd == nil {
+					anchorLost(goName + " (float tie) not translatable: " + why)
+					sum.Unresolved[goName] = why
+					l.p("-- %s: NOT TRANSLATED (%s)\n", goName, why)
+					continue
+				}
+				fd = nfd
+			}
+			if f.applyField != "" && fd != nil && fd.Body != nil {
+				key += "·" + f.applyField
+				goName += "(…)." + f.applyField
+				nfd, why := applyFieldDecl(pk, fd, f.applyField)
+				if nfd == nil {
+					anchorLost(goName + " (float tie) not translatable: " + why)
+					sum.Unresolved[goName] = why
+					l.p("-- %s: NOT TRANSLATED (%s)\n", goName, why)
+					continue
+				}
+				fd = nfd
+			}
 			if fd == nil || fd.Body == nil {
 				anchorLost(goName + " (float tie): function not found")
 				sum.Unresolved[goName] = "function not found"
@@ -3578,6 +4142,15 @@ func genFloatTies() []*leanFile {
 				}
 				if t.notes["range-index"] {
 					m["range-index"] = "for i := range xs runs over List.range xs.length (len(xs) is evaluated once; the body does not assign xs)"
+				}
+				if t.notes["set-as-list"] {
+					m["set-as-list"] = "a maptile.Set that is only written (set[k] = true) and returned is the list of the keys in insertion order (the map is the set of them); reading it is outside the translation"
+				}
+				if t.notes["set-total"] {
+					m["set-total"] = "xs[e] = v is xs.set e v and xs[:n] is xs.take n; Go's bounds checks (panics) are not part of the translation"
+				}
+				if t.notes["pure-simplifier"] {
+					m["pure-simplifier"] = "a simplifier is translated as a pure total function on lines"
 				}
 				if t.notes["set-value"] {
 					m["set-value"] = "xs[i] = e under for i := range xs is xs.set i e: lists are values, that the caller's backing array is written is not part of the translation"
